@@ -419,6 +419,7 @@ class UnchangedOracle(Oracle):
         self.stack = []
         self.judged_state = None
         self.cur_op = None
+        self.last_write = None
         for e in RJ.CATALOGUE:  # every catalogue entry appears in the evidence, fired or not
             sim.count("fault:reject:" + e.id, 0)
         for name, m in sim.markets.items():
@@ -464,7 +465,14 @@ class UnchangedOracle(Oracle):
         op = self.cur_op
         label = op["op"] if fr.top else f"{op['op']}>{fr.label}"
         sim.count(f"probe:rejected:{label}:{cause}")
-        sim.state((label, cause, OS.shape(fr.baseline)))
+        shape = OS.shape(fr.baseline)
+        sim.state((label, cause, shape))
+        for feat in _features(shape):
+            sim.count("probe:rejected_in_state:" + feat)
+        if cause == "closed_bar":
+            sim.count("probe:rejected_in_state:closed_option_bar")
+        if self.last_write == (sim.bar, op.get("phase")):
+            sim.count("probe:rejected_in_state:mid_bar_after_another_write")
         d = OS.diff(fr.baseline, now)
         if d:
             what = d[0][0]
@@ -500,6 +508,8 @@ class UnchangedOracle(Oracle):
                     sim.count(f"probe:recipe_other_cause:{eid}:{cause}" + ("" if tok_ok else ":other_token"))
         elif eid:
             sim.count(f"probe:recipe_{'accepted' if status == 'ok' else 'skipped'}:{eid}")
+        if status == "ok" and outcome.get("new_actions"):
+            self.last_write = (sim.bar, op.get("phase"))
         self.cur_op = None
 
     def finish(self, sim):
@@ -522,9 +532,46 @@ def abstract(scenario, sim):
     return sim.states
 
 
+def _features(shape):
+    out = []
+    for fam in shape:
+        k = fam[0]
+        if k == "uni":
+            if fam[1] >= 1:
+                out.append("uni_one_position" if fam[1] == 1 else "uni_several_positions")
+            if fam[2]:
+                out.append("uni_pending_fees_or_uncollected")
+            if fam[3]:
+                out.append("lp_lent_to_squeeth_vault")
+        elif k == "aave":
+            if fam[1]:
+                out.append("aave_supplies")
+            if fam[2]:
+                out.append("aave_debt")
+        elif k == "squeeth":
+            if fam[1]:
+                out.append("squeeth_one_vault" if fam[1] == 1 else "squeeth_several_vaults")
+            if fam[2]:
+                out.append("squeeth_short")
+        elif k == "deribit":
+            if fam[1]:
+                out.append("deribit_cash")
+            if fam[2]:
+                out.append("deribit_option_holdings")
+        elif k == "gmx1" and fam[1]:
+            out.append("glp_held" + ("_with_reward" if fam[2] else ""))
+        elif k == "gmx2" and fam[1]:
+            out.append("gm_held")
+    return out or ["empty"]
+
+
 def nontrivial(state) -> bool:
     _label, _cause, shape = state
-    return any(any(bool(x) for x in fam[1:]) for fam in shape)
+    return _features(_hashable(shape)) != ["empty"]
+
+
+def _hashable(s):
+    return tuple(_hashable(x) for x in s) if isinstance(s, (list, tuple)) else s
 
 
 def catalogue_report(counters: dict) -> dict:
@@ -543,7 +590,7 @@ RULE = (
     "whose state is not empty. The catalogue itself is enumerated (every entry is the primary recipe of ~ runs/len(catalogue) runs); "
     "per-entry fired counts are in coverage.faults_fired under 'reject:<entry>' (0 = never reached in this batch)"
 )
-BUDGET = {"quick": {"runs": 2600, "wall": 55}, "thorough": {"runs": 90000, "wall": 1100}}
+BUDGET = {"quick": {"runs": 4000, "wall": 55}, "thorough": {"runs": 100000, "wall": 1100}}
 LEVEL = "fault_enumeration"
 ASSUMPTIONS = [
     "observable state = wallet balances (a missing token is a zero balance), Uniswap positions (liquidity, pending amounts, transferred flag), Aave scaled supplies with collateral flag and scaled debts, Squeeth vaults (eth collateral, oSQTH short, LP held), Deribit cash + option positions + the displayed asks/bids of every instrument of the current status, GLP amount and reward, GM amount, and the action log (length + the last 6 records); memoised views, has_update, last_tick and id counters (SqueethMarket._max_vault_id) are not part of it",
